@@ -188,6 +188,12 @@ def oracle(case, res):
                             '%s in section %d reports line %s; the construct is on file line %s' % (f['label'], k, f['line'], planted))
                 if op in ('verify', 'run') and f['msg_lines'] and not set(f['msg_lines']) & set(planted):
                     return ('wrong-traceback-line', '%s message mentions lines %s; planted %s' % (f['label'], f['msg_lines'], planted))
+                # a section that does not compile has a single position: every line number in the text is that one
+                syn_planted = [l for s, kd, l in case['plants'] if kd == 'syntax' and (s == k if case['independent'] else s <= k)]
+                if op == 'run' and f['line'] in syn_planted and set(f['msg_lines']) - set(planted):
+                    return ('message-quotes-section-relative-line',
+                            'running section %d, which does not compile: the feedback is located on file line %s, but its text also says line %s'
+                            % (k, f['line'], sorted(set(f['msg_lines']) - set(planted))))
             # every planted defect of the active kind must have been reported
             kd = {'verify': 'syntax', 'tifa': 'tifa', 'run': 'runtime'}[op]
             planted = [l for s, kd2, l in case['plants'] if kd2 == kd and (s == k if case['independent'] else s <= k)]
